@@ -66,6 +66,25 @@ def scan_c15(repo):
                 ok_sites += len(re.findall(r'\bto_u?int32\s*\(', body))
                 i = arm_end
         i += 1
+    # every compiler table that maps a bitwise BinaryOp / AssignmentOp to an opcode must map it to the same-named one
+    bitops = ('BitAnd', 'BitOr', 'BitXor', 'LShift', 'RShift', 'URShift')
+    tables = 0
+    for rel in ('src/compiler/compile_expr.rs', 'src/compiler/compile_stmt.rs'):
+        cp = os.path.join(repo, rel)
+        if not os.path.exists(cp):
+            continue
+        ct = open(cp).read()
+        for m in re.finditer(r'BinaryOp::(\w+)\s*=>\s*(?:self\.builder\.emit\()?Op::(\w+)', ct):
+            if m.group(1) in bitops or m.group(2) in bitops:
+                tables += 1
+                if m.group(1) != m.group(2):
+                    flagged.append({'site': '%s:%d' % (rel, ct.count('\n', 0, m.start()) + 1), 'op': m.group(1), 'text': m.group(0)[:80]})
+        for m in re.finditer(r'AssignmentOp::(\w+)Assign\s*=>\s*BinaryOp::(\w+)', ct):
+            if m.group(1) in bitops or m.group(2) in bitops:
+                tables += 1
+                if m.group(1) != m.group(2):
+                    flagged.append({'site': '%s:%d' % (rel, ct.count('\n', 0, m.start()) + 1), 'op': m.group(1) + 'Assign', 'text': m.group(0)[:80]})
+    ok_sites += tables
     # parseInt's radix (builtins/global.rs) is a ToInt32 site too
     gp = os.path.join(repo, 'src/interpreter/builtins/global.rs')
     if os.path.exists(gp):
